@@ -237,4 +237,40 @@ theorem c10_replay_after_map (id : Nat) (inner : Src) (σ σN : Store) (h : inne
   exact this
 
 
+
+/-- **C10, text-less replay** (columns = true, `final_source = true` — what `map()` of an enclosing source consumes): let `inner` be a
+tree of the domain of C03 wrapped in a CachedSource with a cold cache.  The first text-less stream of the wrapper fills the cache
+with the map built from it; every later text-less stream replays the text through the stored map with the text-less splitter —
+and its chunk mappings resolve the position of *every character* of the text to exactly the original location the wrapped
+source's own (normal) stream attributes that character to.  So an enclosing source's `map()` sees the same attribution whether the
+wrapper answers from its cache or not.  Chain: C08 text-less (`streamSMFinal_lookEq`) ∘ C12 (decode ∘ encode, lookup kept) ∘
+C03-T3 (text-less = normal mode) ∘ `attr_of_stream`. -/
+theorem c10_replay_final (id : Nat) (inner : Src) (σ σN : Store) (h : inner.ModeHypC) (hn : inner.ids.Nodup) (hc : Cold σ inner.ids) (hcN : Cold σN inner.ids)
+    (hsmall : ∀ m ∈ chunkMs (inner.stream ⟨true, true⟩ σ).1.evs, m.small)
+    (hcold : σ.get? (id, ⟨true, true⟩) = none) (hfresh : id ∉ inner.ids)
+    (sm : SMap) (hm : mapOfEvs true (inner.stream ⟨true, true⟩ σ).1.evs = some sm) :
+    let first := (Src.cached id inner).stream ⟨true, true⟩ σ
+    let second := (Src.cached id inner).stream ⟨true, true⟩ first.2
+    attrFrom (chunkMs second.1.evs) startPos inner.src = attrOf (inner.stream ⟨true, false⟩ σN).1.evs := by
+  intro first second
+  have hfirst : first = ((inner.stream ⟨true, true⟩ σ).1, (inner.stream ⟨true, true⟩ σ).2.insertNew (id, ⟨true, true⟩) (mapOfEvs true (inner.stream ⟨true, true⟩ σ).1.evs)) := by
+    show (Src.cached id inner).stream ⟨true, true⟩ σ = _
+    simp only [Src.stream, hcold]
+  have hstill : (inner.stream ⟨true, true⟩ σ).2.get? (id, ⟨true, true⟩) = none := by
+    rw [Src.stream_store_other inner _ σ (id, ⟨true, true⟩) hfresh]; exact hcold
+  have hget : first.2.get? (id, ⟨true, true⟩) = some (some sm) := by
+    rw [hfirst]
+    simp only
+    rw [get_insertNew_self _ _ _ hstill, hm]
+  have hsecond : second = (Src.cached id inner).stream ⟨true, true⟩ first.2 := rfl
+  rw [hsecond]
+  simp only [Src.stream, hget, streamSM]
+  obtain ⟨b1, b2, b3, b4, _, _, b7⟩ := Src.base_factsC inner h hn σ σN hc hcN
+  have hm3 := Src.m3c inner h hn σ σN hc hcN
+  rw [replay_final_of_final inner.src _ hm3.sorted hsmall sm (mapOfEvs_mappings _ sm hm)]
+  rw [(lookEq_iff inner.src _ _).1 hm3.look]
+  have := attr_of_stream _ b1 b2 b3
+  rw [b4] at this
+  exact this
+
 end Rs
